@@ -189,7 +189,11 @@ def instantiate(interp, sp, name, shared, sizes=None):
             o.attrs[k] = instantiate(interp, v, name + '.' + k, shared)
         return o
     if isinstance(sp, S.DictT):
-        return {k: instantiate(interp, v, '%s[%r]' % (name, k), shared) for k, v in sp.items.items()}
+        d = {}
+        shared[name] = d
+        for k, v in sp.items.items():
+            d[k] = instantiate(interp, v, '%s[%r]' % (name, k), shared)
+        return d
     if isinstance(sp, S.TupleT):
         return tuple(instantiate(interp, v, '%s[%d]' % (name, i), shared) for i, v in enumerate(sp.items))
     if isinstance(sp, S.ListT):
@@ -889,6 +893,14 @@ def verify_contract(c, registry, overrides=None, timeout_ms=10000, log=None, wan
                         rec['model_sizes'] = {k: concretize(v, ob.model) for k, v in it.sizes.items()}
                         rec['model']['__sizes__'] = rec['model_sizes']
                         rec['model']['__aux__'] = [[nm, concretize(t, ob.model)] for nm, t in ctx.aux]
+                        gh = {}
+                        for gk, gv in ctx.ghost.items():
+                            if gk != 'sums':
+                                try:
+                                    gh[gk] = concretize(gv, ob.model)
+                                except Exception:
+                                    pass
+                        rec['model']['__ghost__'] = gh
                         consts = []
                         for d in ob.model.decls():
                             if d.arity() == 0 and len(consts) < 60:
